@@ -64,6 +64,17 @@ def run_env(extra=None):
     return env
 
 
+import contextlib
+
+
+@contextlib.contextmanager
+def build_lock():
+    TARGET.mkdir(exist_ok=True)
+    with open(TARGET / ".build.lock", "w") as lk:
+        fcntl.flock(lk, fcntl.LOCK_EX)
+        yield
+
+
 def build(bins=True, harness=True):
     """(Re)build /repo's working tree with the hooks on.  Serialised by a lock so
     that checks started concurrently do not fight over the target directories."""
